@@ -45,6 +45,8 @@ func Load(dir string, extraPatterns ...string) (*Program, error) {
 	prog, spkgs := ssautil.AllPackages(pkgs, ssa.InstantiateGenerics|ssa.BareInits)
 	prog.Build()
 	m := &Machine{Prog: prog, Intr: map[string]Intrinsic{}, BaseHeap: map[int]Val{}, Globals: map[*ssa.Global]int{}, MaxSteps: 20_000_000, LoopBound: 0}
+	m.NoOrderPrune = os.Getenv("GOCV_NOPRUNE") != ""
+	m.NoMerge = os.Getenv("GOCV_NOMERGE") != ""
 	P := &Program{M: m, Pkgs: pkgs, SSA: map[string]*ssa.Package{}, ByName: map[string]*ssa.Function{}, RepoDir: dir}
 	_ = spkgs
 	for _, sp := range prog.AllPackages() {
